@@ -67,6 +67,9 @@ class SqlalchemyRender:
             # update version for support float cast
             self.dialect.server_version_info = (8, 0, 17)
 
+        # targets where a backslash inside a string literal escapes the next character
+        self.backslash_escapes = self.dialect.name == 'mysql' or dialect_name == 'Snowflake'
+
         self.types_map = {}
         for type_name in sa_type_names:
             self.types_map[type_name.upper()] = getattr(sa.types, type_name)
@@ -790,7 +793,7 @@ class SqlalchemyRender:
         try:
             stmt, params = self.get_query(ast_query, with_params=with_params)
 
-            sql = render_func(stmt, self.dialect)
+            sql = render_func(stmt, self.dialect, backslash_escapes=self.backslash_escapes)
 
             return sql, params
 
@@ -804,26 +807,38 @@ class SqlalchemyRender:
             return sql_query, None
 
 
-def render_dml_query(statement, dialect):
+def render_literal_string(value, backslash_escapes):
+    value = str(value).replace("'", "''")
+    if backslash_escapes:
+        value = value.replace('\\', '\\\\')
+    return "'{}'".format(value)
+
+
+def render_dml_query(statement, dialect, backslash_escapes=None):
+    if backslash_escapes is None:
+        backslash_escapes = dialect.name == 'mysql'
 
     class LiteralCompiler(dialect.statement_compiler):
 
         def render_literal_value(self, value, type_):
 
             if isinstance(value, (str, dt.date, dt.datetime, dt.timedelta)):
-                return "'{}'".format(str(value).replace("'", "''"))
+                return render_literal_string(value, backslash_escapes)
 
             return super(LiteralCompiler, self).render_literal_value(value, type_)
 
     return str(LiteralCompiler(dialect, statement, compile_kwargs={'literal_binds': True}))
 
 
-def render_ddl_query(statement, dialect):
+def render_ddl_query(statement, dialect, backslash_escapes=None):
+    if backslash_escapes is None:
+        backslash_escapes = dialect.name == 'mysql'
+
     class LiteralCompiler(dialect.ddl_compiler):
 
         def render_literal_value(self, value, type_):
             if isinstance(value, (str, dt.date, dt.datetime, dt.timedelta)):
-                return "'{}'".format(str(value).replace("'", "''"))
+                return render_literal_string(value, backslash_escapes)
 
             return super(LiteralCompiler, self).render_literal_value(value, type_)
 
